@@ -1,1 +1,538 @@
-//! (reference model; owner fills this in)
+//! Font-metric reference arithmetic (properties C17 and C05).
+//!
+//! Own transcriptions of
+//!   * TeX: The Program §568, §571-572  (`store_scaled`: fix_word x design size -> scaled),
+//!   * TeX: The Program §103            (`print_scaled`, used only to calibrate against goldens),
+//!   * TFtoPL §40-43                    (`out_fix`: shortest decimal of a fix_word),
+//!   * PLtoTF §62-66                    (`get_fix`: decimal -> fix_word),
+//!   * PLtoTF §75-80                    (`min_cover`, `shorten`, `set_indices`: lossy compression),
+//!   * TFtoPL §84 / PLtoTF §113         (next-larger chains, cycle cut at the largest member).
+//!
+//! Nothing here calls into /repo. Everything works on plain integers: a fix_word is the i32 whose
+//! value is `x * 2^20`, a scaled is the i32 whose value is `x * 2^16`.
+
+use std::collections::BTreeMap;
+
+pub const UNITY_FIX: i32 = 1 << 20;
+
+// ------------------------------------------------------------------------------------------
+// TeX §568, §571, §572
+
+/// The legal design sizes of TeX §568: the four header bytes must have their first byte <= 127
+/// (`read_sixteen` rejects a negative design size) and `z = design_size div 16 >= unity`.
+pub fn design_size_is_legal(design_size_fix: i32) -> bool {
+    design_size_fix >= 0 && (design_size_fix >> 4) >= 0o200000
+}
+
+/// A fix_word TeX accepts in `store_scaled`: first byte 0 or 255, i.e. -16 <= x < 16.
+pub fn fix_word_is_storable(fix: i32) -> bool {
+    let a = (fix as u32 >> 24) as u8;
+    a == 0 || a == 255
+}
+
+/// TeX §571 `store_scaled`, literally, after §568 (`z` from the design size bytes) and §572
+/// (replace z by z', compute alpha and beta). `None` = TeX would `abort` the font.
+pub fn store_scaled(fix: i32, design_size_fix: i32) -> Option<i32> {
+    // §568: read_sixteen(z); z:=z*256+fbyte; z:=(z*16)+(fbyte div 16); if z<unity then abort
+    let ds = (design_size_fix as u32).to_be_bytes();
+    if ds[0] > 127 {
+        return None;
+    }
+    let mut z: i64 = (ds[0] as i64) * 256 + ds[1] as i64;
+    z = z * 256 + ds[2] as i64;
+    z = z * 16 + (ds[3] as i64) / 16;
+    if z < 0o200000 {
+        return None;
+    }
+    // §572
+    let mut alpha: i64 = 16;
+    while z >= 0o40000000 {
+        z /= 2;
+        alpha += alpha;
+    }
+    let beta: i64 = 256 / alpha;
+    let alpha: i64 = alpha * z;
+    // §571
+    let [a, b, c, d] = (fix as u32).to_be_bytes();
+    let (b, c, d) = (b as i64, c as i64, d as i64);
+    let sw = (((d * z) / 0o400 + c * z) / 0o400 + b * z) / beta;
+    let r = if a == 0 {
+        sw
+    } else if a == 255 {
+        sw - alpha
+    } else {
+        return None;
+    };
+    if r < i32::MIN as i64 || r > i32::MAX as i64 {
+        return None;
+    }
+    Some(r as i32)
+}
+
+/// Second formulation of the same function. All operands of the nested truncating divisions of
+/// §571 are non-negative, so `floor(floor(x/m)/n) = floor(x/(mn))` and `floor(x/m)+k =
+/// floor((x+km)/m)` collapse the expression to one division:
+/// `sw = floor(N * z' / (2^16 * beta))`, N = the low 24 bits of the fix_word.
+/// The result is therefore within one unit (1sp) below the exact product `N/2^20 * z' * 2^k`.
+pub fn store_scaled_closed_form(fix: i32, design_size_fix: i32) -> Option<i32> {
+    if design_size_fix < 0 {
+        return None;
+    }
+    let mut z: i128 = (design_size_fix >> 4) as i128;
+    if z < 65536 {
+        return None;
+    }
+    let mut k = 0u32;
+    while z >= (1 << 23) {
+        z >>= 1;
+        k += 1;
+    }
+    let alpha_small: i128 = 16 << k;
+    let beta: i128 = 256 / alpha_small;
+    let n: i128 = (fix as u32 & 0x00ff_ffff) as i128;
+    let sw = (n * z) / (65536 * beta);
+    let top = (fix as u32 >> 24) as u8;
+    let r = match top {
+        0 => sw,
+        255 => sw - alpha_small * z,
+        _ => return None,
+    };
+    i32::try_from(r).ok()
+}
+
+/// TeX §103 `print_scaled` (without the unit).
+pub fn print_scaled(s: i32) -> String {
+    let mut out = String::new();
+    let mut s = s as i64;
+    if s < 0 {
+        out.push('-');
+        s = -s;
+    }
+    out.push_str(&(s / 65536).to_string());
+    out.push('.');
+    s = 10 * (s % 65536) + 5;
+    let mut delta: i64 = 10;
+    loop {
+        if delta > 65536 {
+            s = s + 0o100000 - 50000;
+        }
+        out.push((b'0' + (s / 65536) as u8) as char);
+        s = 10 * (s % 65536);
+        delta *= 10;
+        if s <= delta {
+            break;
+        }
+    }
+    out
+}
+
+// ------------------------------------------------------------------------------------------
+// TFtoPL §40-43
+
+/// TFtoPL §40 `out_fix`, working on the four bytes as TFtoPL does. Returns the text after
+/// "R " (e.g. "-0.027779").
+pub fn print_fix_word(x: i32) -> String {
+    let t = (x as u32).to_be_bytes();
+    let mut out = String::new();
+    // a:=(tfm[k]*16)+(tfm[k+1] div 16); f:=((tfm[k+1] mod 16)*256+tfm[k+2])*256+tfm[k+3]
+    let mut a: i64 = (t[0] as i64) * 16 + (t[1] as i64) / 16;
+    let mut f: i64 = (((t[1] as i64) % 16) * 0o400 + t[2] as i64) * 0o400 + t[3] as i64;
+    // §41 reduce negative to positive
+    if a > 0o3777 {
+        out.push('-');
+        a = 0o10000 - a;
+        if f > 0 {
+            f = 0o4000000 - f;
+            a -= 1;
+        }
+    }
+    // §42 integer part
+    let mut dig: Vec<u8> = vec![];
+    loop {
+        dig.push((a % 10) as u8);
+        a /= 10;
+        if a == 0 {
+            break;
+        }
+    }
+    for d in dig.iter().rev() {
+        out.push((b'0' + d) as char);
+    }
+    // §43 fraction part
+    out.push('.');
+    f = 10 * f + 5;
+    let mut delta: i64 = 10;
+    loop {
+        if delta > 0o4000000 {
+            f = f + 0o2000000 - (delta / 2);
+        }
+        out.push((b'0' + (f / 0o4000000) as u8) as char);
+        f = 10 * (f % 0o4000000);
+        delta *= 10;
+        if f <= delta {
+            break;
+        }
+    }
+    out
+}
+
+// ------------------------------------------------------------------------------------------
+// PLtoTF §62-66
+
+#[derive(Debug, PartialEq, Eq, Clone, Copy)]
+pub enum FixParseError {
+    /// "Real constants must be less than 2048"
+    TooBig,
+    /// something that is not `[+- ]*digits[.digits]`
+    Malformed,
+}
+
+/// PLtoTF §62 `get_fix` applied to the text after the `R`/`D` type code.
+pub fn parse_fix_word(text: &str) -> Result<i32, FixParseError> {
+    let bytes = text.as_bytes();
+    let mut i = 0;
+    // §63 blanks and signs
+    let mut negative = false;
+    while i < bytes.len() {
+        match bytes[i] {
+            b' ' | b'+' => {}
+            b'-' => negative = !negative,
+            _ => break,
+        }
+        i += 1;
+    }
+    // §64 integer part
+    let mut acc: i64 = 0;
+    let mut any = false;
+    while i < bytes.len() && bytes[i].is_ascii_digit() {
+        acc = acc * 10 + (bytes[i] - b'0') as i64;
+        if acc >= 2048 {
+            return Err(FixParseError::TooBig);
+        }
+        any = true;
+        i += 1;
+    }
+    let int_part = acc;
+    acc = 0;
+    // §66 fraction part: keep up to seven digits d_1..d_j,
+    // f' = floor(2^21 * 0.d_1...d_j), f = floor((f'+1)/2)
+    if i < bytes.len() && bytes[i] == b'.' {
+        i += 1;
+        let mut fraction_digits: Vec<i64> = vec![];
+        while i < bytes.len() && bytes[i].is_ascii_digit() {
+            if fraction_digits.len() < 7 {
+                fraction_digits.push(0o10000000 * (bytes[i] - b'0') as i64);
+            }
+            any = true;
+            i += 1;
+        }
+        for d in fraction_digits.iter().rev() {
+            acc = d + acc / 10;
+        }
+        acc = (acc + 10) / 20;
+    }
+    if i != bytes.len() || !any {
+        return Err(FixParseError::Malformed);
+    }
+    if acc >= UNITY_FIX as i64 && int_part == 2047 {
+        return Err(FixParseError::TooBig);
+    }
+    let v = int_part * UNITY_FIX as i64 + acc;
+    Ok(if negative { -v } else { v } as i32)
+}
+
+// ------------------------------------------------------------------------------------------
+// PLtoTF §75-80
+
+/// PLtoTF §75 `min_cover(h,d)` on a sorted list of distinct values: the number of intervals of
+/// width `d` the greedy left-to-right covering needs (which is the minimum), and `next_d`, the
+/// smallest d' > d for which the greedy covering changes (i64::MAX if none).
+pub fn min_cover(sorted: &[i64], d: i64) -> (usize, i64) {
+    let mut count = 0;
+    let mut next_d = i64::MAX;
+    let mut p = 0;
+    while p < sorted.len() {
+        count += 1;
+        let l = sorted[p];
+        while p + 1 < sorted.len() && sorted[p + 1] <= l + d {
+            p += 1;
+        }
+        p += 1;
+        if p < sorted.len() && sorted[p] - l < next_d {
+            next_d = sorted[p] - l;
+        }
+    }
+    (count, next_d)
+}
+
+/// The greedy covering itself: class boundaries as index ranges into `sorted`.
+pub fn greedy_cover(sorted: &[i64], d: i64) -> Vec<(usize, usize)> {
+    let mut out = vec![];
+    let mut p = 0;
+    while p < sorted.len() {
+        let start = p;
+        let l = sorted[p];
+        while p + 1 < sorted.len() && sorted[p + 1] <= l + d {
+            p += 1;
+        }
+        p += 1;
+        out.push((start, p));
+    }
+    out
+}
+
+/// PLtoTF §76 `shorten(h,m)`: the smallest d with min_cover(h,d) <= m, found the way Knuth does
+/// (doubling, then stepping through `next_d`). `sorted` = distinct values ascending, m >= 1.
+pub fn shorten(sorted: &[i64], m: usize) -> i64 {
+    if sorted.len() <= m {
+        return 0;
+    }
+    let (_, next_d) = min_cover(sorted, 0);
+    let mut d = next_d;
+    loop {
+        d += d;
+        let (k, _) = min_cover(sorted, d);
+        if k <= m {
+            break;
+        }
+    }
+    d /= 2;
+    let (mut k, mut next_d) = min_cover(sorted, d);
+    while k > m {
+        d = next_d;
+        let r = min_cover(sorted, d);
+        k = r.0;
+        next_d = r.1;
+    }
+    d
+}
+
+/// Exact minimum number of intervals of width <= d that cover all points, by dynamic
+/// programming over "first point of the last interval" (independent of the greedy argument).
+pub fn min_cover_dp(sorted: &[i64], d: i64) -> usize {
+    let n = sorted.len();
+    // best[i] = min intervals covering sorted[..i]
+    let mut best = vec![usize::MAX; n + 1];
+    best[0] = 0;
+    for i in 1..=n {
+        for j in 0..i {
+            // last interval covers sorted[j..i]
+            if sorted[i - 1] - sorted[j] <= d && best[j] != usize::MAX {
+                best[i] = best[i].min(best[j] + 1);
+            }
+        }
+    }
+    best[n]
+}
+
+/// Brute force: the smallest feasible tolerance among *all* candidate tolerances (0 and every
+/// pairwise difference), scanning every candidate with the DP cover. O(n^4); for small n only.
+pub fn smallest_tolerance_bruteforce(sorted: &[i64], m: usize) -> i64 {
+    let mut cands: Vec<i64> = vec![0];
+    for i in 0..sorted.len() {
+        for j in i + 1..sorted.len() {
+            cands.push(sorted[j] - sorted[i]);
+        }
+    }
+    let mut best: Option<i64> = None;
+    for &c in &cands {
+        if min_cover_dp(sorted, c) <= m {
+            best = Some(match best {
+                None => c,
+                Some(b) => b.min(c),
+            });
+        }
+    }
+    best.expect("the full span is always feasible for m >= 1")
+}
+
+/// The largest pairwise difference strictly smaller than `d` (None if there is none, i.e. all
+/// differences are >= d). The greedy covering only changes at pairwise differences, so this is
+/// the only smaller tolerance that has to be refuted to prove `d` minimal.
+pub fn largest_difference_below(sorted: &[i64], d: i64) -> Option<i64> {
+    let mut best: Option<i64> = None;
+    let mut j = 0usize;
+    // two pointers: for each i the largest j with sorted[j]-sorted[i] < d
+    for i in 0..sorted.len() {
+        if j < i {
+            j = i;
+        }
+        while j + 1 < sorted.len() && sorted[j + 1] - sorted[i] < d {
+            j += 1;
+        }
+        if j > i {
+            let diff = sorted[j] - sorted[i];
+            best = Some(best.map_or(diff, |b: i64| b.max(diff)));
+        }
+    }
+    best
+}
+
+/// PLtoTF §76+§78 together, faithfully, *including* the `excess` rule of `set_indices` (merging
+/// stops once exactly `m` classes remain). Returns (tolerance, representatives, class index of
+/// each sorted value, 1-based). Used for information only: the property does not ask for the
+/// `excess` rule.
+pub fn pltotf_shorten_and_index(sorted: &[i64], m: usize) -> (i64, Vec<i64>, Vec<usize>) {
+    let mut d = shorten(sorted, m);
+    let mut excess: i64 = sorted.len() as i64 - m as i64;
+    if excess <= 0 {
+        d = 0;
+        excess = 0;
+    }
+    let delta = d;
+    let mut reps = vec![];
+    let mut index = vec![0usize; sorted.len()];
+    let mut p = 0;
+    let mut mm = 0;
+    while p < sorted.len() {
+        mm += 1;
+        let l = sorted[p];
+        index[p] = mm;
+        while p + 1 < sorted.len() && sorted[p + 1] <= l + d {
+            p += 1;
+            index[p] = mm;
+            excess -= 1;
+            if excess == 0 {
+                d = 0;
+            }
+        }
+        reps.push(l + (sorted[p] - l) / 2);
+        p += 1;
+    }
+    (delta, reps, index)
+}
+
+// ------------------------------------------------------------------------------------------
+// TFtoPL §84 / PLtoTF §113
+
+/// Next-larger links after cycle breaking. `edges` maps a character to its NEXTLARGER (a
+/// functional graph). For c = 0..255 in increasing order (TFtoPL §84): follow the links from
+/// remainder(c) while the character reached is < c and still has a link; if this arrives back
+/// at c, the link of c is removed. Hence every cycle loses exactly the link of its largest member.
+/// Returns the surviving links and the list of characters whose link was cut.
+pub fn next_larger_links(edges: &BTreeMap<u8, u8>) -> (BTreeMap<u8, u8>, Vec<u8>) {
+    let mut links = edges.clone();
+    let mut cut = vec![];
+    for c in 0..=255u8 {
+        let Some(&first) = links.get(&c) else {
+            continue;
+        };
+        let mut r = first;
+        while r < c {
+            match links.get(&r) {
+                Some(&n) => r = n,
+                None => break,
+            }
+        }
+        if r == c {
+            links.remove(&c);
+            cut.push(c);
+        }
+    }
+    (links, cut)
+}
+
+/// Second formulation (functional-graph view): find each cycle explicitly by walking from every
+/// node with visit colours, and cut the out-edge of the cycle's maximum.
+pub fn next_larger_links_by_cycles(edges: &BTreeMap<u8, u8>) -> (BTreeMap<u8, u8>, Vec<u8>) {
+    let mut colour = [0u16; 256]; // 0 = unvisited, otherwise walk id
+    let mut cut = vec![];
+    let mut walk_id = 0u16;
+    for start in 0..=255u8 {
+        if colour[start as usize] != 0 || !edges.contains_key(&start) {
+            continue;
+        }
+        walk_id += 1;
+        let mut path = vec![];
+        let mut cur = start;
+        loop {
+            if colour[cur as usize] == walk_id {
+                // found a new cycle: cur .. end of path
+                let pos = path.iter().position(|&x| x == cur).unwrap();
+                let m = *path[pos..].iter().max().unwrap();
+                cut.push(m);
+                break;
+            }
+            if colour[cur as usize] != 0 {
+                break; // joins something already explored
+            }
+            colour[cur as usize] = walk_id;
+            path.push(cur);
+            match edges.get(&cur) {
+                Some(&n) => cur = n,
+                None => break,
+            }
+        }
+    }
+    cut.sort_unstable();
+    let mut links = edges.clone();
+    for c in &cut {
+        links.remove(c);
+    }
+    (links, cut)
+}
+
+/// The chain TeX/TFtoPL would traverse from `c` using the surviving links (bounded to 256 steps;
+/// `None` if it does not end, which cannot happen after correct cycle breaking).
+pub fn next_larger_chain(links: &BTreeMap<u8, u8>, c: u8) -> Option<Vec<u8>> {
+    let mut out = vec![];
+    let mut cur = c;
+    while let Some(&n) = links.get(&cur) {
+        out.push(n);
+        cur = n;
+        if out.len() > 256 {
+            return None;
+        }
+    }
+    Some(out)
+}
+
+#[cfg(test)]
+mod tests {
+    use super::*;
+
+    #[test]
+    fn print_parse_small() {
+        assert_eq!(print_fix_word(0), "0.0");
+        assert_eq!(print_fix_word(UNITY_FIX), "1.0");
+        assert_eq!(print_fix_word(-UNITY_FIX), "-1.0");
+        assert_eq!(print_fix_word(i32::MIN), "-2048.0");
+        assert_eq!(print_fix_word(349526), "0.333334");
+        assert_eq!(parse_fix_word("0.333334"), Ok(349526));
+        assert_eq!(parse_fix_word("-2048.0"), Err(FixParseError::TooBig));
+        for x in [1, -1, 5, 1 << 19, i32::MAX, i32::MIN + 1, 123456789, -987654321] {
+            assert_eq!(parse_fix_word(&print_fix_word(x)), Ok(x), "{x}");
+        }
+    }
+
+    #[test]
+    fn scaled() {
+        assert_eq!(store_scaled(UNITY_FIX, UNITY_FIX), Some(65536));
+        assert_eq!(store_scaled(349526, 10 * UNITY_FIX), Some(218453));
+        assert_eq!(print_scaled(218453), "3.33333");
+        for (f, d) in [(349526, 10 << 20), (-116509, 10 << 20), (-1, 1 << 20), (0xffffff, i32::MAX)] {
+            assert_eq!(store_scaled(f, d), store_scaled_closed_form(f, d));
+        }
+    }
+
+    #[test]
+    fn cover() {
+        let v = [1i64, 4, 5];
+        assert_eq!(min_cover(&v, 0).0, 3);
+        assert_eq!(min_cover(&v, 1).0, 2);
+        assert_eq!(shorten(&v, 2), 1);
+        assert_eq!(smallest_tolerance_bruteforce(&v, 2), 1);
+        assert_eq!(largest_difference_below(&v, 3), Some(1));
+        assert_eq!(largest_difference_below(&v, 1), None);
+        assert_eq!(min_cover_dp(&v, 1), 2);
+    }
+
+    #[test]
+    fn next_larger() {
+        let e: BTreeMap<u8, u8> = [(1, 2), (2, 3), (3, 2)].into_iter().collect();
+        let (l, cut) = next_larger_links(&e);
+        assert_eq!(cut, vec![3]);
+        assert_eq!(next_larger_links_by_cycles(&e), (l.clone(), cut));
+        assert_eq!(next_larger_chain(&l, 1), Some(vec![2, 3]));
+    }
+}
